@@ -24,7 +24,7 @@ UNSUPPORTED_LEAVES = {"pattern", "sertype"}
 
 def bounds(tier):
     return dict(tier=tier, schemas=len(_schemas(tier)), dialects=["DRAFT_2020_12", "OPEN_API_3_1"], all_refs=[False, True],
-                targets=["bare", "dataclass field", "aliased dataclass (metadata / Config.aliases / both / Annotated Alias)", "init=False field", "tuples with a fixed-length or variadic unpacked part, nested one level (252 types)", "every jsonschema annotation class on a fitting type x 7 positions (bare, field, defaulted field, Optional field, NamedTuple / TypedDict member, list element)"], max_depth=1 if tier == "quick" else 2,
+                targets=["bare", "dataclass field", "dataclass field under an owner Config whose serialization_strategy turns int into text", "aliased dataclass (metadata / Config.aliases / both / Annotated Alias)", "init=False field", "tuples with a fixed-length or variadic unpacked part, nested one level (252 types)", "every jsonschema annotation class on a fitting type x 7 positions (bare, field, defaulted field, Optional field, NamedTuple / TypedDict member, list element)"], max_depth=1 if tier == "quick" else 2,
                 wrapped_values="spread of 10 (aliased: 4) in quick, full product in thorough",
                 quick_combinations="bare class-free schemas: 1 (definitions cannot occur); wrapped: DRAFT/inline + OPENAPI/all_refs; aliased: OPENAPI/all_refs")
 
@@ -47,6 +47,9 @@ def units(tier):
         if space.depth(d) <= 1 and (tier == "thorough" or d[0] == "leaf" or sum(map(ord, space.show(d))) % 4 == 0):
             for a in ("alias_meta", "alias_config", "alias_both", "alias_annotated"):
                 out.append((d, a))
+        if space.depth(d) <= 1 and ("int" in set(space.leaves_of(d)) or d[0] == "counter"):
+            # the owner's Config turns every int into text: the schema must follow the serializer wherever an int is written
+            out.append((d, "strategy"))
     out += [(None, "generic_specialisations"), (None, "same_name_classes"), (None, "init_false_field"), (None, "fixed_unpacked_tuple")]
     out += [(None, "constraints", t) for t in CONSTRAINT_TARGETS]
     return out
@@ -102,7 +105,19 @@ def run_unit(unit, only=None):
     if target.startswith("alias_"):
         cfg = dict(alias=target.split("_")[1], config={"serialize_by_alias": "True"})
         by_alias = True
+    if target == "strategy":
+        cfg = dict(config={"serialization_strategy": "{int: _IntHex()}"})
     with space.Ctx(dc=cfg) as ctx:
+        if target == "strategy":
+            from mashumaro.types import SerializationStrategy
+
+            class _IntHex(SerializationStrategy, use_annotations=True):
+                def serialize(self, value: int) -> str:
+                    return hex(value)
+
+                def deserialize(self, value: str) -> int:
+                    return int(value, 16)
+            ctx.ns["_IntHex"] = _IntHex
         try:
             if target == "bare":
                 tdesc = d
@@ -170,7 +185,8 @@ def run_unit(unit, only=None):
                     res.cases += 1
                     res.transitions += 1
                     try:
-                        inst = json.loads(json.dumps(ref.encode(tdesc, v, ctx, o)))
+                        # (under the int-to-text Config the reference model does not apply: the document is the serializer's own)
+                        inst = json.loads(json.dumps(enc(v) if target == "strategy" else ref.encode(tdesc, v, ctx, o)))
                     except (ref.Reject, TypeError, ValueError, OverflowError):
                         res.counters["instance_not_json"] += 1
                         continue
